@@ -11,7 +11,9 @@
 package net
 
 import (
+	"bytes"
 	"context"
+	"encoding/binary"
 	"encoding/json"
 	"time"
 
@@ -364,8 +366,12 @@ func (p *Peer) handleReplicatorFailure(ctx context.Context, peerID, docID string
 	if err != nil {
 		return err
 	}
+	// The value identifies this failure: a retry run only removes the marker it has seen when it
+	// pushed the document, so a failure recorded while that push was in flight is not erased.
 	docIDKey := keys.NewReplicatorRetryDocIDKey(peerID, docID)
-	err = txn.Peerstore().Set(ctx, docIDKey.Bytes(), []byte{})
+	failureID := make([]byte, binary.MaxVarintLen64)
+	failureID = failureID[:binary.PutVarint(failureID, time.Now().UnixNano())]
+	err = txn.Peerstore().Set(ctx, docIDKey.Bytes(), failureID)
 	if err != nil {
 		return err
 	}
@@ -636,6 +642,11 @@ func (p *Peer) retryReplicator(ctx context.Context, peerID string) {
 			log.ErrorContextE(ctx, "Failed to parse retry doc key", err)
 			continue
 		}
+		// Remember which failure this retry is covering (the heads are read after this point).
+		seenFailure, err := datastore.PeerstoreFrom(p.db.Rootstore()).Get(ctx, key.Bytes())
+		if err != nil && !errors.Is(err, corekv.ErrNotFound) {
+			log.ErrorContextE(ctx, "Failed to read retry docID", err)
+		}
 		err = p.retryDoc(ctx, peerID, key.DocID)
 		if err != nil {
 			log.ErrorContextE(ctx, "Failed to retry doc", err)
@@ -647,7 +658,7 @@ func (p *Peer) retryReplicator(ctx context.Context, peerID string) {
 			return
 		}
 		verifGate("retry.pushed", p, key.DocID)
-		err = datastore.PeerstoreFrom(p.db.Rootstore()).Delete(ctx, key.Bytes())
+		err = p.deleteRetryDocIfUnchanged(ctx, key, seenFailure)
 		if err != nil {
 			log.ErrorContextE(ctx, "Failed to delete retry docID", err)
 		}
@@ -657,6 +668,31 @@ func (p *Peer) retryReplicator(ctx context.Context, peerID string) {
 	if err != nil {
 		log.ErrorContextE(ctx, "Failed to handle completed replicator retry", err)
 	}
+}
+
+// deleteRetryDocIfUnchanged removes the retry marker of a document unless a new failure has been
+// recorded for it since the given value was read, in which case the marker must stay so that the
+// document is pushed again.
+func (p *Peer) deleteRetryDocIfUnchanged(
+	ctx context.Context,
+	key keys.ReplicatorRetryDocIDKey,
+	seenFailure []byte,
+) error {
+	p.handleRetryMutex.Lock()
+	defer p.handleRetryMutex.Unlock()
+
+	peerstore := datastore.PeerstoreFrom(p.db.Rootstore())
+	current, err := peerstore.Get(ctx, key.Bytes())
+	if err != nil {
+		if errors.Is(err, corekv.ErrNotFound) {
+			return nil
+		}
+		return err
+	}
+	if !bytes.Equal(current, seenFailure) {
+		return nil
+	}
+	return peerstore.Delete(ctx, key.Bytes())
 }
 
 type head struct {
